@@ -444,6 +444,15 @@ def check_C10_full(tier_):
     return res
 CHECKS["C10"] = check_C10_full
 
+_c05_core = CHECKS["C05"]
+def check_C05_full(tier_):
+    """C05 also on what the front ends write (header and vocabulary of the protocol the options denote)"""
+    res = _c05_core(tier_)
+    st = hist.front_stage(tier_, tree_key())
+    add_hist(res, st, "C05", "front", lambda f: (f["why"][:50], "%s" % f["why"][:500], {"record": {k: v for k, v in (f["record"] or {}).items() if k != "gotb"}}))
+    return res
+CHECKS["C05"] = check_C05_full
+
 _c06_core = CHECKS["C06"]
 def check_C06_full(tier_):
     """C06 also on the files the front ends write (FRAME must span exactly the rest of the file)"""
